@@ -272,6 +272,89 @@ def run_load(ctx, exe, label, nthreads, nclients, rounds, sighup):
     return problems, rep
 
 
+def burst_phase(ctx, exe):
+    """m simultaneous clients, more than the daemon has free descriptors: the acceptor has to wait for the backlog; every client
+    that is eventually accepted gets the reply a sequential execution would give, and the daemon goes on serving"""
+    import socket as _s, subprocess
+    d = rig.Daemon(ctx, exe, tag="c11burst", nthreads=4)
+    if not d.start(wait=20):
+        return ["daemon does not start (burst phase)"]
+    problems = []
+    try:
+        subprocess.run(["prlimit", "--pid", str(d.p.pid), "--nofile=24:24"], capture_output=True)
+        rig.canary(d.sock)
+        for rnd in range(2):
+            idle = []
+            for i in range(40):
+                try:
+                    c = _s.socket(_s.AF_UNIX, _s.SOCK_STREAM)
+                    c.settimeout(1)
+                    c.connect(d.sock)
+                    idle.append(c)
+                except OSError:
+                    break
+            time.sleep(0.4)
+            for c in idle:
+                c.close()
+            # the burst is over: requests of ordinary clients must be answered again (generous limit: the workers first have to
+            # notice the closed connections)
+            ok = None
+            t0 = time.time()
+            while time.time() - t0 < 15:
+                try:
+                    ok = rig.canary(d.sock)
+                except rig.DaemonUnresponsive:
+                    ok = "no reply"
+                if not ok:
+                    break
+                time.sleep(0.5)
+            ctx.count(("burst", rnd, len(idle)))
+            if ok:
+                problems.append("after a burst of %d simultaneous connections against a daemon with 24 descriptors (round %d) ordinary requests are "
+                                "no longer answered within 15 s: %s" % (len(idle), rnd + 1, ok))
+                break
+    finally:
+        d.stop(timeout=20)
+    return problems
+
+
+def closed_std_phase(ctx, exe):
+    import socket as _s
+    d = rig.Daemon(ctx, exe, tag="c11nofd", nthreads=8, launcher=("/bin/sh", "-c", 'exec "$@" 0<&- 1>&- 2>&-', "sh"))
+    if not d.start(wait=20):
+        return ["munged -F does not start with descriptors 0, 1 and 2 closed"]
+    problems = []
+    try:
+        g, st = rig.encode(d.sock, uid=12345, gid=12345, auth_uid=1, data=b"not yours")
+        quiet = []
+        for _ in range(3):                      # clients that have connected and not yet sent anything (the daemon waits for
+            c = _s.socket(_s.AF_UNIX, _s.SOCK_STREAM)       # their header for its I/O time limit; the rest happens inside it)
+            c.connect(d.sock)
+            quiet.append(c)
+        time.sleep(0.05)
+        for i in range(12):                     # other clients' refused requests: the daemon logs each with the client's ids
+            rig.decode(d.sock, g["data"] if g and g["error_num"] == 0 else b"MUNGE:AAAA:\0", uid=22000 + i, gid=23000 + i)
+        for i, c in enumerate(quiet):
+            c.settimeout(0.3)
+            try:
+                got = c.recv(4096)
+            except OSError:
+                got = b""
+            if got:
+                problems.append("munged -F started with descriptors 0-2 closed: a client that had connected and sent NOTHING received %d bytes: %r "
+                                "(another client's refusal, written by the daemon's logger to the descriptor number the connection was given)"
+                                % (len(got), got[:120]))
+                break
+        for c in quiet:
+            c.close()
+        cn = rig.canary(d.sock)
+        if cn:
+            problems.append("munged -F started with descriptors 0-2 closed: " + cn)
+    finally:
+        d.stop(timeout=20)
+    return problems
+
+
 def run(ctx):
     ctx.level = "proof"
     proved = vlib.prove(ctx, ["Properties_C11.v"], facts=["cred", "base64"])
@@ -327,6 +410,15 @@ def run(ctx):
             found.append((label, "%s reported by -fsanitize=%s in the race phase: %s" % ("data race" if "data race" in rep else "sanitizer error", san, loc),
                           {"config": label, "report": rep[:4000]}))
         ctx.log("%s: %d problems, sanitizer report %d bytes" % (label, len(problems), len(rep)))
+    # the daemon's own output is shared state too: started in the foreground with descriptors 0-2 CLOSED (a minimal supervisor),
+    # nothing it logs about other clients' requests may appear on a client's connection
+    for why in burst_phase(ctx, builds[1][1]):
+        found.append(("burst", why, {"config": "RLIMIT_NOFILE=24, 40 simultaneous connections"}))
+    dist["burst"] = 2
+    pr = closed_std_phase(ctx, builds[1][1])
+    dist["closed-std"] = 1
+    for why in pr:
+        found.append(("closed-std", why, {"config": "munged -F started with descriptors 0,1,2 closed"}))
     # replies that cannot be delivered while the same credential is being presented by others: only an undelivered SUCCESS
     # gives the record back (C13); an undelivered 'replayed' must not make the credential decodable again (sequential order exists)
     from props import c05_live
